@@ -419,6 +419,13 @@ func execC15Conc(c c15Case, r *oracle.Result) (*oracle.Result, string) {
 		for ti, th := range c.Threads {
 			for oi, op := range th {
 				if op.Op == "set" {
+					if op.Len == 0 {
+						// the empty value: all its writes are the same write as far as a reader
+						// can tell, so they share one id
+						values[ti*1000+oi] = []byte{}
+						byHash[""] = 1 << 30
+						continue
+					}
 					id++
 					v := world.ExpandValue(op.Len, c.Seed+uint64(ti*1000+oi+round*100000))
 					// make values self-identifying even when short
@@ -676,7 +683,7 @@ func TestC15Conc(t *testing.T) {
 				lbl := fmt.Sprintf("t%d-%d", ti, oi)
 				op := c15Op{Op: []string{"set", "get", "delete"}[gen.Weighted(rt, lbl+"-op", 45, 45, 10)], Key: gen.Weighted(rt, lbl+"-key", 80, 20)}
 				if op.Op == "set" {
-					op.Len = gen.Pick(rt, lbl+"-len", 10, 4096, 65536, 300000)
+					op.Len = gen.Pick(rt, lbl+"-len", 0, 10, 4096, 65536, 300000, 300000)
 				}
 				th = append(th, op)
 			}
